@@ -247,14 +247,12 @@ macro_rules! adapters {
             // ---------------------------------------------------------------------------------
             // decision trees
 
-            /// Pairwise distinct, irregular sample weights: class frequencies (weighted sums) then tie only by
-            /// coincidence, so the modal class of a node does not depend on HashMap order.
+            /// Sample weights 1 + 2^-(i+1): every partial sum over at most 18 rows needs at most 23 significant bits, so
+            /// weighted class frequencies are exact in f32 whatever the summation order, and two disjoint sets of rows
+            /// can never have the same total (equal counts would need equal binary fractions): the modal class of a
+            /// node is never decided by HashMap order.
             fn weights(n: usize) -> Array1<f32> {
-                // not linear in the index (a linear rule makes subsets with equal index sums tie exactly)
-                Array1::from_shape_fn(n, |i| {
-                    let mut g = vengine::gen::SplitMix(0x5eed_0000 + i as u64);
-                    (1.0 + g.unit() * 0.5) as f32
-                })
+                Array1::from_shape_fn(n, |i| 1.0 + 0.5f32.powi(1 + (i.min(17)) as i32))
             }
 
             fn same_node(a: &TreeNode<F, usize>, b: &TreeNode<F, usize>) -> bool {
